@@ -171,4 +171,771 @@ Proof.
   rewrite eval_pos_attrs, eval_kws_attrs, ctor_seq. reflexivity.
 Qed.
 
+(* ------------------------------------------------------------------ unfolding lemmas for render *)
+Lemma render_loop l' items :
+  (fix go (l : list model) : res (list model) :=
+     match l with
+     | [] => Ok []
+     | x :: r =>
+         match render l' x with
+         | Err e => Err e
+         | Ok (f, sp) =>
+             match wrap_splice f sp with
+             | Err e => Err e
+             | Ok f' => match go r with Err e => Err e | Ok fs => Ok (f' :: fs) end
+             end
+         end
+     end) items = render_items l' items.
+Proof.
+  induction items as [|x r IH]; [reflexivity|].
+  cbn [Model.render_items]. rewrite <- IH. reflexivity.
+Qed.
+
+Lemma render_seq lvl k items :
+  render lvl (MSeq k items) =
+  match classify lvl k items with
+  | HUnq sp arg => Ok (arg, sp)
+  | HArity => Err EArity
+  | HLevel l' =>
+      match render_items l' items with
+      | Err e => Err e
+      | Ok fs => Ok (MSeq KExpr (dotted_cls (cls_of_kind k) :: MSeq KList fs :: attr_args k), false)
+      end
+  end.
+Proof.
+  cbn [Model.render]. destruct (classify lvl k items) as [sp arg| |l']; try reflexivity.
+  rewrite render_loop. reflexivity.
+Qed.
+
+Lemma eval_item_ctor_form c args :
+  eval_item (MSeq KExpr (dotted_cls c :: args)) =
+  bind (eval (MSeq KExpr (dotted_cls c :: args))) (fun v => ret [v]).
+Proof. reflexivity. Qed.
+
+Lemma classify_inf k items : classify LInf k items = HLevel LInf.
+Proof. unfold Model.classify. destruct (head_op norm k items) as [[| |]|]; reflexivity. Qed.
+
+(* ------------------------------------------------------------------ C30: quote is the identity *)
+Lemma wf_gen_seq cpx k items :
+  wf_gen cpx (MSeq k items) =
+  forallb (wf_gen cpx) items
+  && match k with
+     | KFString br _ =>
+         no_adj_str items
+         && match br with Some b => negb (m_string_in_node (close_pat b) (MSeq k items)) | None => true end
+     | _ => true
+     end.
+Proof. reflexivity. Qed.
+
+Lemma fjoin_inj items : no_adj_str items = true -> fjoin (map inj items) = map inj items.
+Proof.
+  induction items as [|x r IH]; [reflexivity|].
+  intros H. destruct x; cbn [map inj fjoin];
+    try (cbn [no_adj_str] in H; rewrite (IH H); reflexivity).
+  cbn [no_adj_str] in H. destruct r as [|y r']; [reflexivity|].
+  destruct y; try discriminate H; rewrite (IH H); reflexivity.
+Qed.
+
+Lemma string_in_node_inj pat m : string_in_node pat (inj m) = m_string_in_node pat m.
+Proof.
+  induction m as [s|s|z|f|re im|s b|b|k items IH] using model_ind'; try reflexivity.
+  assert (L : (fix any (l : list value) : bool :=
+                 match l with [] => false | x :: r => string_in_node pat x || any r end) (map inj items)
+              = (fix any (l : list model) : bool :=
+                 match l with [] => false | x :: r => m_string_in_node pat x || any r end) items).
+  { induction IH as [|x r Hx _ IHr]; [reflexivity|]. cbn [map]. rewrite Hx, IHr. reflexivity. }
+  destruct k; try reflexivity; cbn [inj string_in_node m_string_in_node]; exact L.
+Qed.
+
+Lemma mk_seq_inj k items :
+  wf_gen false (MSeq k items) = true -> mk_seq k (map inj items) = Ok (VSeq k (map inj items)).
+Proof.
+  rewrite wf_gen_seq. intros H. apply andb_true_iff in H. destruct H as [_ H].
+  destruct k as [| | | | |br ts|cv ex ts]; try reflexivity.
+  apply andb_true_iff in H. destruct H as [Hadj Hbr].
+  unfold mk_seq. rewrite (fjoin_inj _ Hadj).
+  destruct br as [b|]; [|reflexivity].
+  change (VSeq (KFString (Some b) ts) (map inj items)) with (inj (MSeq (KFString (Some b) ts) items)).
+  rewrite string_in_node_inj. apply negb_true_iff in Hbr. rewrite Hbr. reflexivity.
+Qed.
+
+Lemma wf_gen_weaken m : wf_gen true m = true -> wf_gen false m = true.
+Proof.
+  induction m as [s|s|z|f|re im|s b|b|k items IH] using model_ind'; try (intros H; exact H); [reflexivity|].
+  rewrite !wf_gen_seq. intros H. apply andb_true_iff in H. destruct H as [H1 H2].
+  apply andb_true_iff. split; [|exact H2].
+  clear H2. induction IH as [|x r Hx _ IHr]; [reflexivity|].
+  cbn [forallb] in *. apply andb_true_iff in H1. destruct H1 as [Ha Hb].
+  apply andb_true_iff. split; [apply Hx, Ha | apply IHr, Hb].
+Qed.
+
+Definition quote_ok (m : model) : Prop :=
+  exists c args, render LInf m = Ok (MSeq KExpr (dotted_cls c :: args), false)
+                 /\ forall st, eval (MSeq KExpr (dotted_cls c :: args)) st = (Ok (inj m), st).
+
+Lemma quote_items_ok items :
+  Forall (fun m => wf m = true -> quote_ok m) items -> forallb wf items = true ->
+  exists fs, render_items LInf items = Ok fs /\ forall st, eval_items fs st = (Ok (map inj items), st).
+Proof.
+  induction 1 as [|x r Hx _ IHr]; intros Hwf.
+  - exists []. split; reflexivity.
+  - cbn [forallb] in Hwf. apply andb_true_iff in Hwf. destruct Hwf as [Hwx Hwr].
+    destruct (Hx Hwx) as [c [args [Hr He]]]. destruct (IHr Hwr) as [fs [Hrs Hes]].
+    exists (MSeq KExpr (dotted_cls c :: args) :: fs). split.
+    + cbn [Model.render_items]. rewrite Hr. cbn [wrap_splice]. rewrite Hrs. reflexivity.
+    + intros st. cbn [Model.eval_items]. rewrite eval_item_ctor_form.
+      unfold Model.bind, Model.ret. rewrite He, Hes. reflexivity.
+Qed.
+
+Lemma quote_identity_ctor_form m : wf m = true -> quote_ok m.
+Proof.
+  induction m as [s|s|z|f|re im|s b|b|k items IH] using model_ind'; intros Hwf.
+  - exists CSym, [MStr s None; MKw s_from_parser; MSym s_True]. split; [reflexivity|]. intros st. reflexivity.
+  - exists CKw, [MStr s None; MKw s_from_parser; MSym s_True]. split; [reflexivity|]. intros st. reflexivity.
+  - exists CInt, [MInt z]. split; [reflexivity|]. intros st. reflexivity.
+  - exists CFloat, [MFloat f]. split; [reflexivity|]. intros st. reflexivity.
+  - exists CCpx, [MCpx re im]. split; [reflexivity|]. intros st.
+    unfold wf in Hwf. cbn [wf_gen] in Hwf. apply N.eqb_eq in Hwf.
+    rewrite eval_ctor_call. cbn. unfold Model.bind, Model.ret, Model.lift. cbn. rewrite Hwf. reflexivity.
+  - exists CStr, (MStr s b :: opt_kw s_brackets b). split; [reflexivity|]. intros st.
+    destruct b as [b|]; [|reflexivity].
+    unfold wf in Hwf. cbn [wf_gen] in Hwf. apply negb_true_iff in Hwf.
+    rewrite eval_ctor_call. remember (close_pat b) as p eqn:Hp.
+    assert (Hc : ctor CStr [PStr s] [(s_brackets, PStr b)] = if infix p s then Err EValueBrackets else Ok (VStr s (Some b))).
+    { rewrite Hp. reflexivity. }
+    change (bind (eval_pos (MStr s (Some b) :: opt_kw s_brackets (Some b)))
+              (fun ps => bind (eval_kws (MStr s (Some b) :: opt_kw s_brackets (Some b)))
+                           (fun ks => lift (ctor CStr ps ks))) st)
+      with (ctor CStr [PStr s] [(s_brackets, PStr b)], st).
+    rewrite Hc, Hwf. reflexivity.
+  - exists CBytes, [MBytes b]. split; [reflexivity|]. intros st. reflexivity.
+  - unfold wf in Hwf. pose proof (wf_gen_weaken _ Hwf) as Hw0.
+    rewrite wf_gen_seq in Hwf. apply andb_true_iff in Hwf. destruct Hwf as [Hall _].
+    destruct (quote_items_ok items IH Hall) as [fs [Hrs Hes]].
+    exists (cls_of_kind k), (MSeq KList fs :: attr_args k). split.
+    + rewrite render_seq, classify_inf, Hrs. reflexivity.
+    + intros st. rewrite eval_seq_form. unfold Model.bind, Model.lift. rewrite Hes.
+      rewrite (mk_seq_inj _ _ Hw0). reflexivity.
+Qed.
+
+(* quote: for every well-formed model tree, under every environment and every
+   spelling normaliser, evaluating (quote m) yields exactly m and runs no user code *)
+Theorem quote_identity m st : wf m = true -> run_quote St user norm true m st = (Ok (inj m), st).
+Proof.
+  intros Hwf. destruct (quote_identity_ctor_form m Hwf) as [c [args [Hr He]]].
+  unfold run_quote, quote_form. rewrite Hr. apply He.
+Qed.
+
+(* ------------------------------------------------------------------ C31: quasiquote *)
+Lemma qq_loop d' items :
+  (fix go (l : list model) : M (list value) :=
+     match l with
+     | [] => ret []
+     | x :: r =>
+         bind (match active_unquote norm d' x with
+               | Some (true, arg) => bind (eval arg) (fun v => lift (elems_of v))
+               | _ => bind (qq_ref d' x) (fun v => ret [v])
+               end)
+              (fun vs => bind (go r) (fun ws => ret (vs ++ ws)))
+     end) items = qq_items d' items.
+Proof.
+  induction items as [|x r IH]; [reflexivity|].
+  cbn [Model.qq_items]. rewrite <- IH. reflexivity.
+Qed.
+
+Lemma qq_ref_eq d t :
+  qq_ref d t =
+  match active_unquote norm d t with
+  | Some (_, arg) => eval arg
+  | None =>
+      match t with
+      | MSeq k items => bind (qq_items (depth_in norm d k items) items) (fun vs => lift (mk_seq k vs))
+      | _ => ret (inj t)
+      end
+  end.
+Proof.
+  destruct t; try reflexivity.
+  cbn [Model.qq_ref]. destruct (active_unquote norm d (MSeq k items)) as [[sp arg]|]; [reflexivity|].
+  rewrite qq_loop. reflexivity.
+Qed.
+
+Lemma qq_valid_seq d k items :
+  qq_valid norm d (MSeq k items) =
+  match head_op norm k items, d with
+  | Some OpUnquote, O | Some OpSplice, O =>
+      match items with [_; arg] => negb (is_unpack_form arg) | _ => false end
+  | _, _ => forallb (qq_valid norm (depth_in norm d k items)) items
+  end.
+Proof.
+  assert (L : forall d' l,
+    (fix all (l : list model) : bool :=
+       match l with [] => true | x :: r => qq_valid norm d' x && all r end) l
+    = forallb (qq_valid norm d') l).
+  { intros d' l. induction l as [|x r IH]; [reflexivity|]. cbn [forallb]. rewrite <- IH. reflexivity. }
+  cbn [Model.qq_valid].
+  destruct (head_op norm k items) as [[| |]|]; destruct d; try reflexivity; apply L.
+Qed.
+
+Lemma classify_active d k items :
+  classify (LNat d) k items =
+  match active_unquote norm d (MSeq k items) with
+  | Some (sp, arg) => HUnq sp arg
+  | None =>
+      match head_op norm k items, d with
+      | Some OpUnquote, O | Some OpSplice, O => HArity
+      | _, _ => HLevel (LNat (depth_in norm d k items))
+      end
+  end.
+Proof.
+  unfold Model.classify, active_unquote, depth_in.
+  destruct (head_op norm k items) as [[| |]|]; destruct d;
+    destruct items as [|a [|b [|c r]]]; reflexivity.
+Qed.
+
+Lemma active_atom d t :
+  match t with MSeq _ _ => False | _ => True end -> active_unquote norm d t = None.
+Proof. destruct t; intros H; try contradiction; destruct d; reflexivity. Qed.
+
+Lemma eval_item_plain x :
+  is_unpack_iterable x = false -> eval_item x = bind (eval x) (fun v => ret [v]).
+Proof.
+  intros H. destruct x as [s|s|z|f|re im|s b|b|k items]; try reflexivity.
+  destruct k; try reflexivity. destruct items as [|h r]; [reflexivity|].
+  destruct h; try reflexivity. cbn [is_unpack_iterable] in H.
+  unfold Model.eval_item. rewrite H. reflexivity.
+Qed.
+
+Lemma eval_item_splice arg st :
+  eval_item (splice_form arg) st = bind (eval arg) (fun v => lift (elems_of v)) st.
+Proof.
+  change (eval_item (splice_form arg)) with
+    (bind (eval (MSeq KExpr [MSym s_or; arg; MSeq KList []])) (fun v => lift (iterate v))).
+  rewrite eval_or. unfold Model.bind, Model.lift, Model.ret, elems_of.
+  destruct (eval arg st) as [[v|e] st1]; [|reflexivity].
+  destruct (truthy v); reflexivity.
+Qed.
+
+(* what the induction carries for one template at one depth *)
+Definition qq_ok (t : model) : Prop :=
+  forall d, wf t = true -> qq_valid norm d t = true ->
+  match active_unquote norm d t with
+  | Some (sp, arg) => render (LNat d) t = Ok (arg, sp) /\ is_unpack_form arg = false
+  | None => exists c args, render (LNat d) t = Ok (MSeq KExpr (dotted_cls c :: args), false)
+                           /\ forall st, eval (MSeq KExpr (dotted_cls c :: args)) st = qq_ref d t st
+  end.
+
+Lemma unpack_form_iterable x : is_unpack_form x = false -> is_unpack_iterable x = false.
+Proof. unfold is_unpack_form. intros H. apply orb_false_iff in H. tauto. Qed.
+
+Lemma qq_items_ok d items :
+  Forall qq_ok items -> forallb wf items = true -> forallb (qq_valid norm d) items = true ->
+  exists fs, render_items (LNat d) items = Ok fs /\ forall st, eval_items fs st = qq_items d items st.
+Proof.
+  induction 1 as [|x r Hx _ IHr]; intros Hwf Hv.
+  - exists []. split; reflexivity.
+  - cbn [forallb] in Hwf, Hv. apply andb_true_iff in Hwf. apply andb_true_iff in Hv.
+    destruct Hwf as [Hwx Hwr]. destruct Hv as [Hvx Hvr].
+    destruct (IHr Hwr Hvr) as [fs [Hrs Hes]].
+    specialize (Hx d Hwx Hvx). cbn [Model.render_items Model.qq_items]. unfold Model.qq_item.
+    rewrite (qq_ref_eq d x).
+    destruct (active_unquote norm d x) as [[[|] arg]|] eqn:EA.
+    + (* unquote-splice *)
+      destruct Hx as [Hr Hu]. rewrite Hr. unfold wrap_splice. rewrite (unpack_form_iterable _ Hu).
+      rewrite Hrs. exists (splice_form arg :: fs). split; [reflexivity|]. intros st.
+      cbn [Model.eval_items]. apply bind_ext; [apply eval_item_splice|].
+      intros vs s. apply bind_ext; [apply Hes | reflexivity].
+    + (* unquote *)
+      destruct Hx as [Hr Hu]. rewrite Hr. cbn [wrap_splice]. rewrite Hrs.
+      exists (arg :: fs). split; [reflexivity|]. intros st.
+      cbn [Model.eval_items]. rewrite (eval_item_plain _ (unpack_form_iterable _ Hu)).
+      apply bind_ext; [reflexivity|]. intros vs s. apply bind_ext; [apply Hes | reflexivity].
+    + destruct Hx as [c [args [Hr He]]]. rewrite Hr. cbn [wrap_splice]. rewrite Hrs.
+      exists (MSeq KExpr (dotted_cls c :: args) :: fs). split; [reflexivity|]. intros st.
+      cbn [Model.eval_items]. rewrite eval_item_ctor_form.
+      apply bind_ext.
+      * intros s. apply bind_ext; [|reflexivity]. intros s'. rewrite He, (qq_ref_eq d x), EA. reflexivity.
+      * intros vs s. apply bind_ext; [apply Hes | reflexivity].
+Qed.
+
+Lemma render_atom lvl lvl' m :
+  match m with MSeq _ _ => False | _ => True end -> render lvl m = render lvl' m.
+Proof. destruct m; intros H; try contradiction; reflexivity. Qed.
+
+Lemma wf_seq_items k items : wf (MSeq k items) = true -> forallb wf items = true.
+Proof. unfold wf. rewrite wf_gen_seq. intros H. apply andb_true_iff in H. tauto. Qed.
+
+Lemma qq_ok_atom m : match m with MSeq _ _ => False | _ => True end -> qq_ok m.
+Proof.
+  intros Hat d Hwf _. rewrite (active_atom d m Hat).
+  destruct (quote_identity_ctor_form m Hwf) as [c [args [Hr He]]].
+  exists c, args. split.
+  - rewrite (render_atom _ LInf m Hat). exact Hr.
+  - intros st. rewrite He, qq_ref_eq, (active_atom d m Hat). destruct m; try contradiction; reflexivity.
+Qed.
+
+Lemma qq_ok_all t : qq_ok t.
+Proof.
+  induction t as [s|s|z|f|re im|s b|b|k items IH] using model_ind'; try (apply qq_ok_atom; exact I).
+  intros d Hwf Hv. rewrite qq_valid_seq in Hv. rewrite render_seq, classify_active.
+  destruct (active_unquote norm d (MSeq k items)) as [[sp arg]|] eqn:EA.
+  - split; [reflexivity|].
+    unfold active_unquote in EA. destruct d; [|discriminate EA].
+    destruct items as [|a [|b [|c r]]]; try discriminate EA.
+    revert EA Hv. destruct (head_op norm k [a; b]) as [[| |]|]; intros EA Hv; try discriminate EA;
+      injection EA as _ <-; apply negb_true_iff in Hv; exact Hv.
+  - assert (HL : match head_op norm k items, d with
+                 | Some OpUnquote, O | Some OpSplice, O => HArity
+                 | _, _ => HLevel (LNat (depth_in norm d k items))
+                 end = HLevel (LNat (depth_in norm d k items))
+                 /\ forallb (qq_valid norm (depth_in norm d k items)) items = true).
+    { unfold active_unquote in EA.
+      destruct (head_op norm k items) as [[| |]|] eqn:EH; destruct d; try (split; [reflexivity | exact Hv]);
+        destruct items as [|a [|b [|c r]]]; try discriminate Hv; discriminate EA. }
+    destruct HL as [HL Hv']. rewrite HL.
+    destruct (qq_items_ok (depth_in norm d k items) items IH (wf_seq_items _ _ Hwf) Hv') as [fs [Hrs Hes]].
+    rewrite Hrs. exists (cls_of_kind k), (MSeq KList fs :: attr_args k). split; [reflexivity|].
+    intros st. rewrite eval_seq_form, qq_ref_eq, EA. apply bind_ext; [apply Hes | reflexivity].
+Qed.
+
+(* quasiquote: for every well-formed template to which the documentation gives a meaning, at every
+   depth, under every environment: the rendered form evaluates to the reference substitution,
+   running the same user code in the same order on the same states *)
+Theorem quasiquote_correct t d : wf t = true -> qq_valid norm d t = true ->
+  exists f sp, render (LNat d) t = Ok (f, sp) /\ forall st, eval f st = qq_ref d t st.
+Proof.
+  intros Hwf Hv. pose proof (qq_ok_all t d Hwf Hv) as H.
+  destruct (active_unquote norm d t) as [[sp arg]|] eqn:EA.
+  - destruct H as [Hr _]. exists arg, sp. split; [exact Hr|].
+    intros st. rewrite qq_ref_eq, EA. reflexivity.
+  - destruct H as [c [args [Hr He]]]. eexists _, false. split; [exact Hr | exact He].
+Qed.
+
+Corollary quasiquote_run t st : wf t = true -> qq_valid norm 0 t = true ->
+  run_quote St user norm false t st = qq_ref 0 t st.
+Proof.
+  intros Hwf Hv. destruct (quasiquote_correct t 0 Hwf Hv) as [f [sp [Hr He]]].
+  unfold run_quote, quote_form. rewrite Hr. apply He.
+Qed.
+
+(* ------------------------------------------------------------------ rejected templates *)
+Lemma wrap_splice_err f sp e : wrap_splice f sp = Err e -> static_error e = true.
+Proof.
+  unfold wrap_splice. destruct sp; [|discriminate]. destruct (is_unpack_iterable f); [|discriminate].
+  intros H. injection H as <-. reflexivity.
+Qed.
+
+Lemma render_err_static m : forall lvl e, render lvl m = Err e -> static_error e = true.
+Proof.
+  induction m as [s|s|z|f|re im|s b|b|k items IH] using model_ind'; intros lvl e; try discriminate.
+  rewrite render_seq. destruct (classify lvl k items) as [sp arg| |l']; [discriminate| |].
+  - intros H. injection H as <-. reflexivity.
+  - destruct (render_items l' items) as [fs|e'] eqn:ER; [discriminate|].
+    intros H. injection H as <-. clear lvl. revert e' ER.
+    induction IH as [|x r Hx _ IHr]; intros e' ER; [discriminate ER|].
+    cbn [Model.render_items] in ER.
+    destruct (render l' x) as [[f sp]|e1] eqn:E1.
+    + destruct (wrap_splice f sp) as [f'|e2] eqn:E2.
+      * destruct (render_items l' r) as [fs|e3]; [discriminate ER|].
+        injection ER as <-. apply IHr. reflexivity.
+      * injection ER as <-. exact (wrap_splice_err _ _ _ E2).
+    + injection ER as <-. exact (Hx _ _ E1).
+Qed.
+
+Lemma render_active d t sp arg :
+  active_unquote norm d t = Some (sp, arg) -> render (LNat d) t = Ok (arg, sp).
+Proof.
+  intros H. destruct t; try (rewrite active_atom in H by exact I; discriminate H).
+  rewrite render_seq, classify_active, H. reflexivity.
+Qed.
+
+Definition rejects_item (d : nat) (x : model) : bool :=
+  qq_rejected norm d x
+  || match active_unquote norm d x with
+     | Some (true, arg) => is_unpack_iterable arg
+     | _ => false
+     end.
+
+Lemma qq_rejected_seq d k items :
+  qq_rejected norm d (MSeq k items) =
+  match head_op norm k items, d with
+  | Some OpUnquote, O | Some OpSplice, O =>
+      match items with [_; _] => false | _ => true end
+  | _, _ => existsb (rejects_item (depth_in norm d k items)) items
+  end.
+Proof.
+  assert (L : forall d' l,
+    (fix any (l : list model) : bool :=
+       match l with
+       | [] => false
+       | x :: r =>
+           qq_rejected norm d' x
+           || match active_unquote norm d' x with
+              | Some (true, arg) => is_unpack_iterable arg
+              | _ => false
+              end
+           || any r
+       end) l = existsb (rejects_item d') l).
+  { intros d' l. induction l as [|x r IH]; [reflexivity|]. cbn [existsb]. rewrite <- IH. reflexivity. }
+  cbn [Model.qq_rejected].
+  destruct (head_op norm k items) as [[| |]|]; destruct d; try reflexivity; apply L.
+Qed.
+
+Lemma rejected_render t : forall d, qq_rejected norm d t = true -> exists e, render (LNat d) t = Err e.
+Proof.
+  induction t as [s|s|z|f|re im|s b|b|k items IH] using model_ind'; intros d; try discriminate.
+  rewrite qq_rejected_seq, render_seq, classify_active. intros Hrej.
+  assert (Hcases :
+    (active_unquote norm d (MSeq k items) = None /\ match head_op norm k items, d with
+     | Some OpUnquote, O | Some OpSplice, O => HArity
+     | _, _ => HLevel (LNat (depth_in norm d k items))
+     end = HArity)
+    \/
+    (active_unquote norm d (MSeq k items) = None /\ match head_op norm k items, d with
+     | Some OpUnquote, O | Some OpSplice, O => HArity
+     | _, _ => HLevel (LNat (depth_in norm d k items))
+     end = HLevel (LNat (depth_in norm d k items)) /\ existsb (rejects_item (depth_in norm d k items)) items = true)).
+  { unfold active_unquote.
+    destruct (head_op norm k items) as [[| |]|] eqn:EH; destruct d;
+      try (right; split; [|split; [reflexivity | exact Hrej]];
+           destruct items as [|a [|b [|c r]]]; try reflexivity; rewrite EH; reflexivity);
+      left; destruct items as [|a [|b [|c r]]]; try discriminate Hrej; split; reflexivity. }
+  destruct Hcases as [[EA HC]|[EA [HC Hex]]]; rewrite EA, HC.
+  - exists EArity. reflexivity.
+  - clear HC EA Hrej. set (d' := depth_in norm d k items) in *. clearbody d'.
+    assert (HE : exists e, render_items (LNat d') items = Err e).
+    { induction IH as [|x r Hx _ IHr]; [discriminate Hex|].
+      cbn [existsb] in Hex. cbn [Model.render_items].
+      destruct (render (LNat d') x) as [[f sp]|e1] eqn:E1; [|exists e1; reflexivity].
+      destruct (wrap_splice f sp) as [f'|e2] eqn:E2; [|exists e2; reflexivity].
+      apply orb_true_iff in Hex. destruct Hex as [Hx'|Hr'].
+      - exfalso. unfold rejects_item in Hx'. apply orb_true_iff in Hx'. destruct Hx' as [Hq|Hs].
+        + destruct (Hx d' Hq) as [e He]. rewrite He in E1. discriminate E1.
+        + destruct (active_unquote norm d' x) as [[[|] arg]|] eqn:EA; try discriminate Hs.
+          rewrite (render_active _ _ _ _ EA) in E1. injection E1 as <- <-.
+          unfold wrap_splice in E2. rewrite Hs in E2. discriminate E2.
+      - destruct (IHr Hr') as [e He]. rewrite He. exists e. reflexivity. }
+    destruct HE as [e He]. rewrite He. exists e. reflexivity.
+Qed.
+
+(* a rejected template is refused while it is compiled: a user-facing error, and no user code runs *)
+Theorem quasiquote_rejected t d st : qq_rejected norm d t = true ->
+  exists e, render (LNat d) t = Err e /\ static_error e = true
+            /\ (d = O -> run_quote St user norm false t st = (Err e, st)).
+Proof.
+  intros H. destruct (rejected_render t d H) as [e He]. exists e.
+  split; [exact He|]. split; [exact (render_err_static _ _ _ He)|].
+  intros ->. unfold run_quote, quote_form. rewrite He. reflexivity.
+Qed.
+
+(* ------------------------------------------------------------------ promotion of the result *)
+Lemma as_model_seq k items :
+  as_model (VSeq k items) =
+  match as_model_list items with Err e => Err e | Ok items' => mk_seq k items' end.
+Proof. reflexivity. Qed.
+
+Lemma as_model_inj_atom m : match m with MSeq _ _ => False | _ => True end -> as_model (inj m) = Ok (inj m).
+Proof. destruct m; intros H; try contradiction; reflexivity. Qed.
+
+Lemma as_model_list_app l1 : forall l2 l',
+  as_model_list (l1 ++ l2) = Ok l' ->
+  exists a b, as_model_list l1 = Ok a /\ as_model_list l2 = Ok b /\ l' = a ++ b.
+Proof.
+  induction l1 as [|x r IH]; intros l2 l' H.
+  - exists [], l'. split; [reflexivity|]. split; [exact H | reflexivity].
+  - cbn [app as_model_list] in H. cbn [as_model_list].
+    destruct (as_model x) as [x'|e]; [|discriminate H].
+    destruct (as_model_list (r ++ l2)) as [t|e] eqn:E; [|discriminate H].
+    injection H as <-. destruct (IH _ _ E) as [a [b [Ha [Hb ->]]]].
+    rewrite Ha. exists (x' :: a), b. split; [reflexivity|]. split; [exact Hb | reflexivity].
+Qed.
+
+Lemma fjoin_cons_dep x l1 l2 : fjoin l1 = fjoin l2 -> fjoin (x :: l1) = fjoin (x :: l2).
+Proof. intros H. destruct x; cbn [fjoin]; rewrite H; reflexivity. Qed.
+
+Definition is_vstr (v : value) : bool := match v with VStr _ _ => true | _ => false end.
+
+Lemma fjoin_cons_other x r : is_vstr x = false -> fjoin (x :: r) = x :: fjoin r.
+Proof. destruct x; intros H; try discriminate H; reflexivity. Qed.
+
+(* promoting the children of a joined list and joining again = promoting the children and joining *)
+Lemma fjoin_promote l : forall l' l'',
+  as_model_list l = Ok l' -> as_model_list (fjoin l) = Ok l'' -> fjoin l' = fjoin l''.
+Proof.
+  induction l as [|x r IH]; intros l' l'' H1 H2.
+  - cbn in H1, H2. injection H1 as <-. injection H2 as <-. reflexivity.
+  - destruct (is_vstr x) eqn:Ex.
+    + destruct x; try discriminate Ex. clear Ex.
+      cbn [as_model_list] in H1. change (as_model (VStr s brackets)) with (Ok (VStr s brackets)) in H1.
+      destruct (as_model_list r) as [r'|e] eqn:Er; [|discriminate H1]. injection H1 as <-.
+      cbn [fjoin] in H2.
+      destruct (fjoin r) as [|y q] eqn:Ej.
+      * cbn [as_model_list] in H2. change (as_model (VStr s brackets)) with (Ok (VStr s brackets)) in H2.
+        cbn [as_model_list] in H2. injection H2 as <-.
+        apply fjoin_cons_dep. apply (IH r' []); reflexivity.
+      * destruct (is_vstr y) eqn:Ey.
+        -- destruct y; try discriminate Ey. clear Ey.
+           cbn [as_model_list] in H2. change (as_model (VStr (s ++ s0) None)) with (Ok (VStr (s ++ s0) None)) in H2.
+           destruct (as_model_list q) as [q''|e] eqn:Eq; [|discriminate H2]. injection H2 as <-.
+           assert (Hr : fjoin r' = fjoin (VStr s0 brackets0 :: q'')).
+           { apply IH; [reflexivity|]. cbn [as_model_list].
+             change (as_model (VStr s0 brackets0)) with (Ok (VStr s0 brackets0)). rewrite Eq. reflexivity. }
+           cbn [fjoin]. rewrite Hr. cbn [fjoin].
+           destruct (fjoin q'') as [|z w]; [reflexivity|].
+           destruct z; try reflexivity. rewrite app_assoc. reflexivity.
+        -- assert (H2' : as_model_list (VStr s brackets :: y :: q) = Ok l'').
+           { destruct y; try discriminate Ey; exact H2. }
+           clear H2. cbn [as_model_list] in H2'.
+           change (as_model (VStr s brackets)) with (Ok (VStr s brackets)) in H2'.
+           destruct (as_model y) as [y'|e] eqn:Ey'; [|discriminate H2'].
+           destruct (as_model_list q) as [q''|e] eqn:Eq; [|discriminate H2']. injection H2' as <-.
+           apply fjoin_cons_dep. apply IH; [reflexivity|]. cbn [as_model_list]. rewrite Ey', Eq. reflexivity.
+    + rewrite (fjoin_cons_other _ _ Ex) in H2. cbn [as_model_list] in H1, H2.
+      destruct (as_model x) as [x'|e]; [|discriminate H1].
+      destruct (as_model_list r) as [r'|e] eqn:Er; [|discriminate H1]. injection H1 as <-.
+      destruct (as_model_list (fjoin r)) as [r''|e] eqn:Er'; [|discriminate H2]. injection H2 as <-.
+      apply fjoin_cons_dep. apply IH; reflexivity.
+Qed.
+
+Lemma fjoin_promote_ex l : forall l'',
+  as_model_list (fjoin l) = Ok l'' -> exists l', as_model_list l = Ok l'.
+Proof.
+  induction l as [|x r IH]; intros l'' H.
+  - exists []. reflexivity.
+  - destruct (is_vstr x) eqn:Ex.
+    + destruct x; try discriminate Ex. clear Ex.
+      cbn [as_model_list]. change (as_model (VStr s brackets)) with (Ok (VStr s brackets)).
+      cbn [fjoin] in H.
+      assert (Hr : exists t, as_model_list (fjoin r) = Ok t).
+      { destruct (fjoin r) as [|y q]; [exists []; reflexivity|].
+        destruct (is_vstr y) eqn:Ey.
+        - destruct y; try discriminate Ey. cbn [as_model_list] in H.
+          change (as_model (VStr (s ++ s0) None)) with (Ok (VStr (s ++ s0) None)) in H.
+          destruct (as_model_list q) as [q''|e] eqn:Eq; [|discriminate H].
+          exists (VStr s0 brackets0 :: q''). cbn [as_model_list].
+          change (as_model (VStr s0 brackets0)) with (Ok (VStr s0 brackets0)). rewrite Eq. reflexivity.
+        - assert (H' : as_model_list (VStr s brackets :: y :: q) = Ok l'').
+          { destruct y; try discriminate Ey; exact H. }
+          cbn [as_model_list] in H'. change (as_model (VStr s brackets)) with (Ok (VStr s brackets)) in H'.
+          cbn [as_model_list].
+          destruct (as_model y) as [y'|e]; [|discriminate H'].
+          destruct (as_model_list q) as [q''|e]; [|discriminate H']. exists (y' :: q''). reflexivity. }
+      destruct Hr as [t Ht]. destruct (IH _ Ht) as [r' Hr']. rewrite Hr'. exists (VStr s brackets :: r'). reflexivity.
+    + rewrite (fjoin_cons_other _ _ Ex) in H. cbn [as_model_list] in H |- *.
+      destruct (as_model x) as [x'|e]; [|discriminate H].
+      destruct (as_model_list (fjoin r)) as [t|e] eqn:Et; [|discriminate H].
+      destruct (IH _ eq_refl) as [r' Hr']. rewrite Hr'. exists (x' :: r'). reflexivity.
+Qed.
+
+Lemma promote_mk_seq k vs v v' :
+  mk_seq k vs = Ok v -> as_model v = Ok v' ->
+  exists vs', as_model_list vs = Ok vs' /\ mk_seq k vs' = Ok v'.
+Proof.
+  intros Hm Ha.
+  assert (Hgen : forall items, v = VSeq k items ->
+            exists t, as_model_list items = Ok t /\ mk_seq k t = Ok v').
+  { intros items ->. rewrite as_model_seq in Ha.
+    destruct (as_model_list items) as [t|e]; [|discriminate Ha]. exists t. split; [reflexivity | exact Ha]. }
+  destruct k as [| | | | |br ts|cv ex ts];
+    try (cbn [mk_seq] in Hm; injection Hm as <-; destruct (Hgen vs eq_refl) as [t [H1 H2]]; exists t; split; assumption).
+  assert (Hv : v = VSeq (KFString br ts) (fjoin vs)).
+  { unfold mk_seq in Hm. destruct br as [b|].
+    - destruct (string_in_node (close_pat b) (VSeq (KFString (Some b) ts) (fjoin vs))); [discriminate Hm|].
+      injection Hm as <-. reflexivity.
+    - injection Hm as <-. reflexivity. }
+  destruct (Hgen _ Hv) as [t [H1 H2]].
+  destruct (fjoin_promote_ex _ _ H1) as [vs' Hvs']. exists vs'. split; [exact Hvs'|].
+  pose proof (fjoin_promote _ _ _ Hvs' H1) as Hj.
+  unfold mk_seq in H2 |- *. rewrite Hj. exact H2.
+Qed.
+
+Lemma qq_p_loop d' items :
+  (fix go (l : list model) : M (list value) :=
+     match l with
+     | [] => ret []
+     | x :: r =>
+         bind (match active_unquote norm d' x with
+               | Some (true, arg) =>
+                   bind (eval arg) (fun v => lift (match elems_of v with
+                                                   | Ok es => as_model_list es
+                                                   | Err e => Err e
+                                                   end))
+               | _ => bind (qq_ref_p d' x) (fun v => ret [v])
+               end)
+              (fun vs => bind (go r) (fun ws => ret (vs ++ ws)))
+     end) items = qq_items_p St user norm d' items.
+Proof.
+  induction items as [|x r IH]; [reflexivity|].
+  cbn [Model.qq_items_p]. rewrite <- IH. reflexivity.
+Qed.
+
+Lemma qq_ref_p_eq d t :
+  qq_ref_p d t =
+  match active_unquote norm d t with
+  | Some (_, arg) => bind (eval arg) (fun v => lift (as_model v))
+  | None =>
+      match t with
+      | MSeq k items => bind (qq_items_p St user norm (depth_in norm d k items) items) (fun vs => lift (mk_seq k vs))
+      | _ => ret (inj t)
+      end
+  end.
+Proof.
+  destruct t; try reflexivity.
+  cbn [Model.qq_ref_p]. destruct (active_unquote norm d (MSeq k items)) as [[sp arg]|]; [reflexivity|].
+  rewrite qq_p_loop. reflexivity.
+Qed.
+
+Lemma bind_ok {A B} (m : M A) (f : A -> M B) st b st' :
+  bind m f st = (Ok b, st') -> exists a st1, m st = (Ok a, st1) /\ f a st1 = (Ok b, st').
+Proof.
+  unfold Model.bind. destruct (m st) as [[a|e] st1]; [|discriminate].
+  intros H. exists a, st1. split; [reflexivity | exact H].
+Qed.
+
+Definition promo_ok (t : model) : Prop :=
+  forall d st st' v v', qq_ref d t st = (Ok v, st') -> as_model v = Ok v' -> qq_ref_p d t st = (Ok v', st').
+
+Lemma promo_items d items :
+  Forall promo_ok items ->
+  forall st st' vs vs', qq_items d items st = (Ok vs, st') -> as_model_list vs = Ok vs' ->
+  qq_items_p St user norm d items st = (Ok vs', st').
+Proof.
+  induction 1 as [|x r Hx _ IHr]; intros st st' vs vs' Hq Ha.
+  - cbn in Hq. injection Hq as <- <-. cbn in Ha. injection Ha as <-. reflexivity.
+  - cbn [Model.qq_items] in Hq. apply bind_ok in Hq. destruct Hq as [es [st1 [Hi Hq]]].
+    apply bind_ok in Hq. destruct Hq as [ws [st2 [Hr Hq]]].
+    unfold Model.ret in Hq. injection Hq as <- <-.
+    destruct (as_model_list_app _ _ _ Ha) as [es' [ws' [He [Hw ->]]]].
+    cbn [Model.qq_items_p]. unfold Model.bind at 1.
+    assert (Hi' : qq_item_p St user norm d x st = (Ok es', st1)).
+    { unfold Model.qq_item in Hi. unfold Model.qq_item_p.
+      destruct (active_unquote norm d x) as [[[|] arg]|].
+      - apply bind_ok in Hi. destruct Hi as [v0 [st0 [Hev Hl]]]. unfold Model.lift in Hl.
+        injection Hl as Hel <-. unfold Model.bind. rewrite Hev. unfold Model.lift. rewrite Hel, He. reflexivity.
+      - apply bind_ok in Hi. destruct Hi as [v1 [st0 [Hev Hl]]]. unfold Model.ret in Hl. injection Hl as <- <-.
+        cbn [as_model_list] in He. destruct (as_model v1) as [v1'|e] eqn:E1; [|discriminate He].
+        injection He as <-. unfold Model.bind. rewrite (Hx _ _ _ _ _ Hev E1). reflexivity.
+      - apply bind_ok in Hi. destruct Hi as [v1 [st0 [Hev Hl]]]. unfold Model.ret in Hl. injection Hl as <- <-.
+        cbn [as_model_list] in He. destruct (as_model v1) as [v1'|e] eqn:E1; [|discriminate He].
+        injection He as <-. unfold Model.bind. rewrite (Hx _ _ _ _ _ Hev E1). reflexivity. }
+    rewrite Hi'. unfold Model.bind. rewrite (IHr _ _ _ _ Hr Hw). reflexivity.
+Qed.
+
+Lemma promo_atom m : match m with MSeq _ _ => False | _ => True end -> promo_ok m.
+Proof.
+  intros Hat d st st' v v' Hq Ha. rewrite qq_ref_eq in Hq. rewrite (active_atom d m Hat) in Hq.
+  rewrite qq_ref_p_eq, (active_atom d m Hat).
+  destruct m; try contradiction; unfold Model.ret in Hq |- *; injection Hq as <- <-;
+    cbn in Ha; injection Ha as <-; reflexivity.
+Qed.
+
+Lemma promo_all t : promo_ok t.
+Proof.
+  induction t as [s|s|z|f|re im|s b|b|k items IH] using model_ind'; try (apply promo_atom; exact I).
+  intros d st st' v v' Hq Ha. rewrite qq_ref_eq in Hq. rewrite qq_ref_p_eq.
+  destruct (active_unquote norm d (MSeq k items)) as [[sp arg]|].
+  - unfold Model.bind, Model.lift. rewrite Hq, Ha. reflexivity.
+  - apply bind_ok in Hq. destruct Hq as [vs [st1 [Hi Hm]]]. unfold Model.lift in Hm. injection Hm as Hm <-.
+    destruct (promote_mk_seq _ _ _ _ Hm Ha) as [vs' [Hvs' Hm']].
+    unfold Model.bind, Model.lift. rewrite (promo_items _ _ IH _ _ _ _ Hi Hvs'), Hm'. reflexivity.
+Qed.
+
+(* the statement of C31 with promoted values: whenever the quasiquote form evaluates to v and
+   hy.as_model accepts v, the promoted result is the reference in which every inserted value
+   has been promoted *)
+Theorem quasiquote_promoted t st st' v v' : wf t = true -> qq_valid norm 0 t = true ->
+  run_quote St user norm false t st = (Ok v, st') -> as_model v = Ok v' ->
+  qq_ref_p 0 t st = (Ok v', st').
+Proof.
+  intros Hwf Hv Hr Ha. rewrite (quasiquote_run t st Hwf Hv) in Hr. exact (promo_all t O _ _ _ _ Hr Ha).
+Qed.
+
 End WithEnv.
+
+(* ------------------------------------------------------------------ witnesses and examples *)
+From Coq Require Import String.
+Definition norm_id (s : text) : text := s.
+Definition no_user (m : model) (st : unit) : res value * unit := (Err EUnmodelled, st).
+
+(* '-0j : the Complex whose imaginary part is -0.0 *)
+Definition cpx_negzero : model := MCpx 0 f_negzero.
+
+Lemma quote_complex_negzero :
+  wf_ctor cpx_negzero = true /\
+  forall St user norm st,
+    run_quote St user norm true cpx_negzero st = (Ok (VCpx 0 0), st) /\ VCpx 0 0 <> inj cpx_negzero.
+Proof.
+  split; [reflexivity|]. intros St user norm st. split; [reflexivity | discriminate].
+Qed.
+
+Lemma quasiquote_complex_negzero :
+  wf_ctor cpx_negzero = true /\ qq_valid norm_id 0 cpx_negzero = true /\
+  forall St user norm st,
+    run_quote St user norm false cpx_negzero st = (Ok (VCpx 0 0), st) /\ VCpx 0 0 <> inj cpx_negzero.
+Proof.
+  split; [reflexivity|]. split; [reflexivity|]. intros St user norm st. split; [reflexivity | discriminate].
+Qed.
+
+Definition sy (s : String.string) : model := MSym (t_of s).
+Arguments sy _%string_scope.
+Arguments t_of _%string_scope.
+Definition ex (l : list model) : model := MSeq KExpr l.
+
+(* a model with every class and attribute, symbols that look special, empty sequences *)
+Definition example_model : model :=
+  ex [sy "unquote"; sy "None"; MKw (t_of "k"); MKw []; MInt (-7); MFloat 9221120237041090560; MFloat f_negzero;
+      MCpx f_negzero 4611686018427387904; MStr (t_of "a]b") (Some (t_of "x")); MStr [] (Some []); MBytes [0; 255];
+      ex []; MSeq KList []; MSeq KTuple [sy "t"]; MSeq KSet [MInt 1; MInt 1]; MSeq KDict [MInt 1];
+      ex [sy "unquote-splice"; sy "x"]; ex [sy "quasiquote"; ex [sy "unquote"; sy "y"]];
+      MSeq (KFString (Some (t_of "zz")) true)
+        [MStr (t_of "a") None;
+         MSeq (KFComp (Some (t_of "r")) (Some (t_of "x ")) true) [sy "x"; MStr (t_of ">{w}") None];
+         MStr (t_of "b") (Some (t_of "q"))];
+      MSeq (KFString None false) []; MSeq (KFComp None None false) []].
+
+Lemma example_model_wf : wf example_model = true.
+Proof. vm_compute. reflexivity. Qed.
+
+(* user code for the examples: x = 2, X = [1, 2, 3], n = None; everything else raises *)
+Definition ex_user (m : model) (st : list model) : res value * list model :=
+  (if text_eqb (match m with MSym s => s | _ => [] end) (t_of "x") then Ok (PInt 2)
+   else if text_eqb (match m with MSym s => s | _ => [] end) (t_of "X") then Ok (PList [PInt 1; PInt 2; PInt 3])
+   else if text_eqb (match m with MSym s => s | _ => [] end) (t_of "n") then Ok PNone
+   else Err (EUser 0), st ++ [m]).
+
+(* docs/api.rst: (quasiquote (+ 1 (unquote x))) => '(+ 1 2) *)
+Definition doc_template1 : model := ex [sy "+"; MInt 1; ex [sy "unquote"; sy "x"]].
+Lemma doc_example1 :
+  qq_ref_p _ ex_user norm_id 0 doc_template1 [] = (Ok (inj (ex [sy "+"; MInt 1; MInt 2])), [sy "x"]).
+Proof. vm_compute. reflexivity. Qed.
+
+(* docs/api.rst: `[a b ~X c d ~@X e f] => '[a b [1 2 3] c d 1 2 3 e f] ; ~@ of None splices nothing *)
+Definition doc_template2 : model :=
+  MSeq KList [sy "a"; sy "b"; ex [sy "unquote"; sy "X"]; sy "c"; sy "d"; ex [sy "unquote-splice"; sy "X"];
+              ex [sy "unquote-splice"; sy "n"]; sy "e"; sy "f"].
+Lemma doc_example2 :
+  qq_ref_p _ ex_user norm_id 0 doc_template2 [] =
+  (Ok (inj (MSeq KList [sy "a"; sy "b"; MSeq KList [MInt 1; MInt 2; MInt 3]; sy "c"; sy "d";
+                        MInt 1; MInt 2; MInt 3; sy "e"; sy "f"])),
+   [sy "X"; sy "X"; sy "n"]).
+Proof. vm_compute. reflexivity. Qed.
+
+(* nesting: inside a nested quasiquote an unquote stays literal, a doubly unquoted form is evaluated *)
+Definition nested_template : model :=
+  ex [sy "a"; ex [sy "unquote"; sy "x"];
+      ex [sy "quasiquote"; ex [sy "b"; ex [sy "unquote"; sy "x"]; ex [sy "unquote"; ex [sy "unquote"; sy "x"]];
+                               MSeq KSet [ex [sy "unquote-splice"; ex [sy "unquote-splice"; sy "X"]]]]]].
+Lemma nested_template_ok : wf nested_template = true /\ qq_valid norm_id 0 nested_template = true.
+Proof. split; vm_compute; reflexivity. Qed.
+Lemma nested_example :
+  qq_ref _ ex_user norm_id 0 nested_template [] =
+  (Ok (VSeq KExpr [VSym (t_of "a"); PInt 2;
+         VSeq KExpr [VSym (t_of "quasiquote");
+           VSeq KExpr [VSym (t_of "b"); VSeq KExpr [VSym (t_of "unquote"); VSym (t_of "x")];
+                       VSeq KExpr [VSym (t_of "unquote"); PInt 2];
+                       VSeq KSet [VSeq KExpr [VSym (t_of "unquote-splice"); PInt 1; PInt 2; PInt 3]]]]]),
+   [sy "x"; sy "x"; sy "X"]).
+Proof. vm_compute. reflexivity. Qed.
+
+Definition bad_arity_template : model := ex [sy "a"; ex [sy "unquote"]].
+Lemma bad_arity_rejected : qq_rejected norm_id 0 bad_arity_template = true.
+Proof. vm_compute. reflexivity. Qed.
